@@ -46,3 +46,19 @@
 (declare-fun TrimSpace (String) String)
 (declare-fun Rel (String String) String)
 (declare-fun RelErr (String String) Bool)
+
+; ---- io/fs, path (slash paths) ----
+(declare-fun validPath (String) Bool)            ; io/fs.ValidPath
+(declare-fun containsAny (String String) Bool)   ; strings.ContainsAny
+(declare-fun Index (String String) Int)          ; strings.Index
+(declare-fun ToLower (String) String)
+; climbs c : the cleaned relative path c starts with a ".." segment
+(define-fun climbs ((c String)) Bool (or (= c "..") (str.prefixof "../" c)))
+; normalised sub-path of a package: empty, or a clean fs.ValidPath other than "."
+(define-fun normSub ((s String)) Bool (or (= s "") (and (validPath s) (not (= s ".")) (= (Clean s) s))))
+(define-fun looksLocal ((s String)) Bool (or (str.prefixof "./" s) (str.prefixof "../" s)))
+; canonical spelling of a cleaned relative path as a local source address
+(define-fun localFix ((c String)) String (ite (= c "..") "../" (ite (= c ".") "./" (ite (or (str.prefixof "./" c) (str.prefixof "../" c)) c (str.++ "./" c)))))
+; representation invariant of LocalSource.relPath: exactly the strings ParseLocalSource accepts
+(define-fun localOK ((p String)) Bool
+  (and (not (containsAny p ":\u{5c}")) (or (str.prefixof "./" p) (str.prefixof "../" p)) (= (localFix (Clean p)) p)))
